@@ -598,7 +598,7 @@ func main() {
 			}
 			if json.Unmarshal(b, &rr) == nil {
 				if rr.KF > 0 {
-					e.addEvent("race", 3, "Leaf.Update || Delete")
+					e.addEvent("race", 3, "race report")
 				}
 				if rr.Other > 0 {
 					e.addEvent("race", 4, rr.Msg)
